@@ -402,15 +402,30 @@ because every entry is falsy it was silently treated as absent instead of
 being rejected like [1, 'x'] is."""),
 
  ("metadata-to-dataframe-order", [
-  (T, """            for key, value in m.items():
-                if expand[key]:""", """            for key in expand:
+  (T, """            if len(columns) > len(mcols):
+                mcols = columns
+
+        rows = []
+        for m in md:
+            row = []
+            for key, value in m.items():
+                if expand[key]:""", """            if len(columns) > len(mcols):
+                mcols = columns
+                mexpand = expand
+
+        rows = []
+        for m in md:
+            row = []
+            for key in mexpand:
                 value = m[key]
-                if expand[key]:"""),
+                if mexpand[key]:"""),
  ], """fix: metadata_to_dataframe misplaced values when key order differed
 
 Rows were filled in each entry's own key order under columns named after
 another entry's order, so [{p:1,q:2},{q:3,p:4}] exported p=3, q=4 for the
-second ID."""),
+second ID.  Fill every row in the key order that defined the columns.
+(The first attempt from notes/trial-fixes.diff iterated `expand`, which holds
+the key order of the *last* entry; the C19 check rejected it.)"""),
 
  ("collapse-empty-axis", [
   (T, """            data = self._conv_to_self_type(collapsed_data, transpose=transpose)
